@@ -10,6 +10,9 @@ CHECKS = {
 CHECKS["C05"] = dict(cat="proof", tech="Coq proof (induction over chunk lists) that a literal receiveMessage model equals an octet-wise reference for every segmentation; differential execution of the extracted model vs both C copies; trace oracle under every cut position",
    text="coq/Properties/C05.v: feed (the transcription of receiveMessage, up to three socket reads per call) applied to ANY chunking of a byte stream equals the octet-at-a-time reference on the concatenation (so any two segmentations agree), every frame handed on is one delimited APDU, and the receive counter equals the number of deliveries mod 2^15. The model is run call by call against receiveMessage() of cs104_slave.c and cs104_connection.c (white-box harness on a simulated socket) and the whole server is replayed under every cut position with an independent delivery oracle.",
    note="Trusted: Coq kernel; hand transcription Apci/Reasm.v (validated by correspondence every run); simulated socket mirrors socket_linux.c. Delivery after reassembly is checked by the trace oracle, not by a theorem about handleMessage (the Coq delivery rule abstracts the N(R) check). Client role at trace level is exercised in C03.", ref="7.5")
+CHECKS["C04"] = dict(cat="proof", tech="Coq refinement proof: literal checkSequenceNumber loop == modular window rule (induction over the ring walk, all k / occupancies / wrap alignments / N(R)); extracted model vs both C copies; native exhaustive sweeps",
+   text="coq/Properties/C04.v: for every k-buffer state satisfying the ring invariant (c frames outstanding ending at the next N(S), any rotation, any alignment to the 32767->0 wrap) and every N(R), the transcribed checkSequenceNumber returns true exactly when (N(R) - (V(S) - c)) mod 2^15 <= c, releases exactly that many frames, changes nothing on rejection and never exhausts its static loop bound; push/is_full keep the invariant and along every send/ack history at most k frames are outstanding. The extracted functions are compared with both C copies on generated ring states; the C copies are also swept natively (every rotation x occupancy x 10 alignments x all 32768 N(R) per k) against the modular rule; a trace scenario checks deferral and closing on a bad N(R) on the real server.",
+   note="Trusted: Coq kernel; hand transcription Apci/KBuf.v (validated by correspondence each run). The client-side 'send API reports failure while full' clause is exercised by the client harness of C03, the server-side deferral by the trace scenario here and by C13.", ref="7.4")
 NA = {}
 def main():
     checks = []
